@@ -48,8 +48,7 @@ Print Assumptions zip_unzip_roundtrip.
 (* Zip view.  For every legal tree t, the file system built by afero's zipfs.New over the walker's archive, seen through
    the VFS accessors Stat / Exists / IsDir / Ls / ReadFile, in any state and any number of times: a file of t is a file
    with its size and its content; a directory of t (empty ones included) exists, is a directory and lists exactly the
-   names of its children; a path that t does not have is not found.  (The tar view deviates: see the two refuted
-   theorems below.) *)
+   names of its children; a path that t does not have is not found.  (The tar view deviates for empty directories: see the refuted theorem below.) *)
 Theorem archive_view_faithful_zip : forall t, legal_tree t ->
   let idx := view_index VZip (zip_entries t) in
   forall p st, p <> [] ->
@@ -117,12 +116,16 @@ Theorem tar_empty_dir_invisible_refuted : exists t p,
 Proof. exists w_tree, [[101]]. split; [reflexivity|]. split; [exact tar_empty_dir_invisible_l | exact zip_empty_dir_visible_l]. Qed.
 Print Assumptions tar_empty_dir_invisible_refuted.
 
-Theorem tar_reread_refuted : exists t p c,
-  tree_at t p = Some (IFile c 1) /\ c <> [] /\
-  view_run VTar (view_index VTar (zip_entries t)) [] [(OpRead, p); (OpRead, p)] = [VData c; VEmptyErr] /\
-  view_run VZip (view_index VZip (zip_entries t)) [] [(OpRead, p); (OpRead, p)] = [VData c; VData c].
-Proof. exists w_tree, [[100]; [102]], [104; 105]. split; [reflexivity|]. split; [discriminate|]. split; [exact tar_reread_l | exact zip_reread_l]. Qed.
-Print Assumptions tar_reread_refuted.
+(* Reading is repeatable on both views (the former finding view-reread-empty:tar is repaired in the repository by
+   tarfs.go rewindingTarFs; the model follows the repaired code): for EVERY entry list, view kind, path and state, a read
+   returns the same answer whatever was read before, and leaves the state alone. *)
+Theorem view_read_repeatable : forall k es st st' p,
+  view_step k (view_index k es) st OpRead p = (fst (view_step k (view_index k es) st' OpRead p), st).
+Proof.
+  intros k es st st' p. unfold view_step. destruct (b_stat k (view_index k es) p) as [v|]; [|reflexivity].
+  destruct (v_isdir v); reflexivity.
+Qed.
+Print Assumptions view_read_repeatable.
 
 Theorem readonly_rm_empty_dir_refuted : exists t p,
   tree_at t p = Some (IDir 7) /\
